@@ -454,6 +454,7 @@ int main(int argc, char** argv) {
             } else if (WEXITSTATUS(status) != 0) {
                 text += "{\"e\":\"died\",\"sig\":-" + std::to_string(WEXITSTATUS(status)) + "}\n";
             }
+            text += "{\"e\":\"end\"}\n";
             std::string bname;
             for (auto& n : b) bname += (bname.empty() ? "" : "+") + n;
             bool merged = false;
